@@ -894,4 +894,4 @@ def replay(ctx, path):
         print('%s, %s: %s' % (c['transport'], c['encoding'], msg or 'holds on this input'))
         return 1 if msg else 0
     print(open(path).read()[:3000])
-    return 1
+    return None      # no dedicated replay for this kind of case: check.py re-runs the check with the recorded seed
